@@ -225,12 +225,51 @@ def rule_fifty(fx, rep):
 # ---- C11-REPKEY ----------------------------------------------------------------------------
 
 
+def clock_path_taken(conds, clock):
+    """evaluate the clock comparisons of a path for a concrete clock value; None if a condition is not a clock comparison"""
+    for (e, v) in conds:
+        co = cmp_op(e)
+        if not co:
+            return None
+        a, c = deep_strip(co[1]), deep_strip(co[2])
+        def val(x):
+            if isinstance(x, tuple) and x[0] == "const" and isinstance(x[1], int):
+                return x[1]
+            if isinstance(x, tuple) and any(isinstance(y, tuple) and len(y) == 3 and y[0] == "field" and y[2] == "halfmove_clock" for y in walk(x)) and \
+                    not any(isinstance(y, tuple) and y and y[0] == "binop" for y in walk(x)):
+                return clock
+            return None
+        x, y = val(a), val(c)
+        if x is None or y is None:
+            return None
+        res = {"Eq": x == y, "Ne": x != y, "Lt": x < y, "Le": x <= y, "Gt": x > y, "Ge": x >= y}[co[0]]
+        truth = (v != 0) if isinstance(v, int) else (0 in v[1])
+        if res != truth:
+            return False
+    return True
+
+
 def rule_repkey(fx, rep):
     b = fx.one("Game::is_repeated_position")
-    ret = deep_strip(b.expr({"l": 0, "p": []}, expand_named=True))
-    recognised = isinstance(ret, tuple) and ret[0] == "call" and ret[1].endswith("Iterator::any")
-    if not recognised:
-        rep.notes.append("C11-REPKEY: the repetition scan is not an iterator `any(..)` chain; clause not decided")
+    paths = [p for p in decision_paths(b) if p[1] is not None]
+    scans = []
+    recognised = bool(paths)
+    early_ok = True
+    for conds, ret, bb in paths:
+        r = deep_strip(ret)
+        if isinstance(r, tuple) and r[0] == "call" and r[1].endswith("Iterator::any"):
+            scans.append((conds, r))
+        elif isinstance(r, tuple) and r[0] == "const" and r[1] == 0:
+            # an early `false`: sound only for clocks below 4 (no position can recur within three reversible plies)
+            taken = [c for c in range(0, 12) if clock_path_taken(conds, c)]
+            if any(clock_path_taken(conds, c) is None for c in range(0, 12)):
+                recognised = False
+            elif taken and max(taken) > 3:
+                early_ok = False
+        else:
+            recognised = False
+    if not recognised or not scans:
+        rep.notes.append("C11-REPKEY: the repetition scan is not an iterator `any(..)` chain (plus clock-guarded early returns); clause not decided")
         rep.rule("C11-REPKEY", 0, 0, True, "repetition scan not in recognisable form: clause not decided")
         return
     ok = True
@@ -241,44 +280,55 @@ def rule_repkey(fx, rep):
         ok = False
         rep.violation("C11-REPKEY", f"C11-REPKEY/{key}", msg, {"fn": b.name, "file": b.file, "line": b.line})
 
-    src = ret[2][0]
-    names = []
-    e = deep_strip(src)
-    take_n = None
-    while isinstance(e, tuple) and e[0] == "call":
-        names.append(e[1].split("::")[-1])
-        if e[1].endswith("Iterator::take"):
-            take_n = deep_strip(e[2][1])
-        e = deep_strip(e[2][0])
     n += 1
-    good = "take" in names and "rev" in names and names.index("take") < names.index("rev") and isinstance(e, tuple) and e[0] == "field" and e[2] == "history"
-    rep.obligation(good)
-    rep.sample({"rule": "C11-REPKEY", "scan": names, "window": show(take_n) if take_n else None})
-    if not good:
-        bad("order", f"the scan is `{names}` over `{show(e)[:40]}`; expected history entries newest first, then limited (`rev` before `take`)")
-    n += 1
-    good = take_n is not None and any(isinstance(x, tuple) and len(x) == 3 and x[0] == "field" and x[2] == "halfmove_clock" for x in walk(take_n)) and \
-        not any(isinstance(x, tuple) and x and x[0] == "binop" for x in walk(take_n))
-    rep.obligation(good)
-    if not good:
-        bad("window", f"the scan window is `{show(take_n) if take_n else None}`, not exactly the halfmove clock (positions before the last capture or pawn move cannot recur)")
-    # closure: full key equality with the current key
-    clos = [x for x in walk(ret[2][1]) if isinstance(x, tuple) and x and x[0] == "agg" and str(x[1]).startswith("closure:")]
-    n += 1
-    good = False
-    if clos:
-        cb = fx.bodies.get(clos[0][1][len("closure:"):])
-        if cb is not None:
-            r = deep_strip(cb.expr({"l": 0, "p": []}, expand_named=True))
-            co = cmp_op(r)
-            if co and co[0] == "Eq" and isinstance(r, tuple) and r[0] == "call" and "ZobristHash" in r[1]:
-                a, c = deep_strip(co[1]), deep_strip(co[2])
-                fa = [x for x in (a, c) if isinstance(x, tuple) and x[0] == "field" and x[2] == "zobrist"]
-                good = len(fa) == 2 and fa[0][1] != fa[1][1]
-    rep.obligation(good)
-    if not good:
-        bad("key", "the scan does not compare the whole position key of the history entry with the whole current key")
-    rep.rule("C11-REPKEY", n, 3, ok, "repetition scan: newest first, clock-bounded window, full key equality")
+    rep.obligation(early_ok)
+    if not early_ok:
+        bad("early-return", "the scan is skipped (returns false) for halfmove clocks of 4 or more, where a repetition is possible")
+    for conds, ret in scans:
+        src = ret[2][0]
+        names = []
+        e = deep_strip(src)
+        take_n = None
+        while isinstance(e, tuple) and e[0] == "call":
+            names.append(e[1].split("::")[-1])
+            if e[1].endswith("Iterator::take"):
+                take_n = deep_strip(e[2][1])
+            e = deep_strip(e[2][0])
+        over_history = isinstance(e, tuple) and e[0] == "field" and e[2] == "history"
+        if not over_history:
+            rep.notes.append("C11-REPKEY: the scan does not iterate self.history; clause not decided")
+            rep.rule("C11-REPKEY", 0, 0, True, "repetition scan not over self.history: clause not decided")
+            return
+        plumbing = {"iter", "deref", "into_iter", "as_slice"}
+        adaptors = [x for x in names if x not in plumbing]
+        n += 1
+        good = adaptors == ["take", "rev"]
+        rep.obligation(good)
+        rep.sample({"rule": "C11-REPKEY", "scan": names, "window": show(take_n) if take_n else None})
+        if not good:
+            bad("order", f"the scan over the history is `{list(reversed(adaptors))}`; expected exactly newest-first (`rev`) limited by `take(halfmove_clock)` - any other window (take_while, skip, filter ..) can drop or add positions")
+        n += 1
+        good = take_n is not None and any(isinstance(x, tuple) and len(x) == 3 and x[0] == "field" and x[2] == "halfmove_clock" for x in walk(take_n)) and \
+            not any(isinstance(x, tuple) and x and x[0] == "binop" for x in walk(take_n))
+        rep.obligation(good)
+        if not good:
+            bad("window", f"the scan window is `{show(take_n) if take_n else None}`, not exactly the halfmove clock (positions before the last capture or pawn move cannot recur)")
+        clos = [x for x in walk(ret[2][1]) if isinstance(x, tuple) and x and x[0] == "agg" and str(x[1]).startswith("closure:")]
+        n += 1
+        good = False
+        if clos:
+            cb = fx.bodies.get(clos[0][1][len("closure:"):])
+            if cb is not None:
+                r = deep_strip(cb.expr({"l": 0, "p": []}, expand_named=True))
+                co = cmp_op(r)
+                if co and co[0] == "Eq" and isinstance(r, tuple) and r[0] == "call" and "ZobristHash" in r[1]:
+                    a, c = deep_strip(co[1]), deep_strip(co[2])
+                    fa = [x for x in (a, c) if isinstance(x, tuple) and x[0] == "field" and x[2] == "zobrist"]
+                    good = len(fa) == 2 and fa[0][1] != fa[1][1]
+        rep.obligation(good)
+        if not good:
+            bad("key", "the scan does not compare the whole position key of the history entry with the whole current key")
+    rep.rule("C11-REPKEY", n, 4, ok, "repetition scan: newest first, clock-bounded window, full key equality")
 
 
 # ---- C11-CALLERS ---------------------------------------------------------------------------
@@ -337,6 +387,10 @@ MUTANTS = [
      "edits": [(G, "            .any(|h| h.zobrist == self.zobrist)", "            .any(|h| h.zobrist.0 as u32 == self.zobrist.0 as u32)")]},
     {"name": "repetition window ignores the clock", "expect": "C11-REPKEY/window",
      "edits": [(G, "            .take(self.halfmove_clock as usize)", "            .take(self.halfmove_clock as usize + 1)")]},
+    {"name": "window ends at the first entry stored with clock 0 (seed C11-1)", "expect": "C11-REPKEY",
+     "edits": [(G, "        self.history\n            .iter()\n            .rev()\n            .take(self.halfmove_clock as usize)", "        if self.halfmove_clock < 4 {\n            return false;\n        }\n\n        self.history\n            .iter()\n            .rev()\n            .take_while(|h| h.halfmove_clock > 0)")]},
+    {"name": "benign: early return for clocks below four", "benign": True,
+     "edits": [(G, "    pub fn is_repeated_position(&self) -> bool {\n        self.history", "    pub fn is_repeated_position(&self) -> bool {\n        if self.halfmove_clock < 4 {\n            return false;\n        }\n\n        self.history")]},
     {"name": "quiescence forgets the repetition test", "expect": "C11-CALLERS",
      "edits": [("src/engine/search/quiescence.rs", "    if game.is_repeated_position()\n        || game.is_stalemate_by_fifty_move_rule()", "    if game.is_stalemate_by_fifty_move_rule()")]},
     {"name": "benign: material rule via early returns", "benign": True,
